@@ -46,6 +46,11 @@ EnvActs ==
     \cup (IF "wsio" \in Alpha THEN {[op |-> "wsframe", s |-> s, f |-> f] : s \in Sid, f \in Frames}
           ELSE {})
     \cup (IF "wsio" \in Alpha THEN {[op |-> "wsdrop", s |-> s] : s \in Sid} ELSE {})
+    \cup (IF "wsburst" \in Alpha
+          THEN {[op |-> "wsframes", s |-> s, fs |-> fs] : s \in Sid,
+                fs \in {<<"CLOSE", "m1">>, <<"m1", "CLOSE">>, <<"m1", "PONG">>, <<"PINGprobe", "UPGRADE">>,
+                        <<"UPGRADE", "m1">>}}
+          ELSE {})
     \cup (IF "send" \in Alpha THEN {[op |-> "send", s |-> s] : s \in Sid} ELSE {})
     \cup (IF "api" \in Alpha THEN {[op |-> "disconnect", s |-> s] : s \in Sid} ELSE {})
     \cup (IF "sess" \in Alpha THEN {[op |-> "save", s |-> s, tok |-> s] : s \in Sid}
@@ -58,6 +63,7 @@ Do(a) ==
       [] a.op = "post"    -> PostReq(a.s, a.body)
       [] a.op = "upgrade" -> UpgradeReq(a.s)
       [] a.op = "wsframe" -> WsFrame(a.s, a.f)
+      [] a.op = "wsframes" -> WsFrames(a.s, a.fs)
       [] a.op = "wsdrop"  -> WsDrop(a.s)
       [] a.op = "send"    -> AppSend(a.s)
       [] a.op = "disconnect" -> AppDisconnect(a.s)
